@@ -5,7 +5,7 @@ import shapelib as sl
 from lib import coq_list as L
 
 THEOREMS = ['C03_chain_spec', 'C03_chain_assert', 'C03_lalr_filters_copy', 'C03_lalr_builds_shape',
-            'C03_shape_total', 'C03_placeholders_count', 'C03_find_rule_size', 'C03_maybe_untaken',
+            'C03_shape_total', 'C03_placeholders_count', 'C03_earley_resolve_is_shape_of_derivation', 'C03_find_rule_size', 'C03_maybe_untaken',
             'C03_example_rule', 'C03_example_size', 'C03_example_derivation']
 GEN_DEPS = []
 RULE = ('(a) random compiled-rule records (0-5 symbols, terminals/rules, `_` names, filter_out, alias, template source, '
@@ -33,7 +33,8 @@ TRUSTED_BASE = ['hand model Shape/Chain.v of parse_tree_builder.py (tied by intr
 ASSUMPTIONS = ['terminals of the end-to-end grammars are single distinct characters (lexing is not under test here)',
                'GrammarError at construction (colliding optional expansions, LALR conflicts) and CYK\'s rejection of '
                'empty rules exclude the engine for that grammar']
-IMPORTS = 'From LV Require Import Base.Prelude Shape.Chain Shape.Spec Shape.Transform Shape.Ebnf Shape.ChainCheck.'
+IMPORTS = ('From LV Require Import Base.Prelude Forest.Sppf Forest.Prio Shape.Chain Shape.Spec Shape.Transform Shape.Ebnf '
+           'Shape.EarleyLeg Shape.ChainCheck.')
 
 ENGINES = [('earley', 'dynamic', 'resolve'), ('earley', 'basic', 'resolve'), ('earley', 'dynamic_complete', 'resolve'),
            ('earley', 'dynamic', 'explicit'), ('lalr', 'basic', None), ('lalr', 'contextual', None), ('cyk', 'basic', None)]
@@ -212,6 +213,41 @@ def find_rule_size_stream(ctx):
         DEFER.add('(CaseFRS %s)' % term_, ('frs', h))
 
 
+def earley_forest_case(ctx, gtext, text, ka, mp, lexer):
+    """export the SPPF lark's Earley builds and the tree it returns in resolve mode: Coq evaluates
+    ForestToParseTree(resolve) with the chain callbacks on the exported forest"""
+    from props import forest_common as fc
+    from lark import Lark
+    from lark.exceptions import LarkError
+    try:
+        pf = Lark(gtext, parser='earley', ambiguity='forest', lexer=lexer, keep_all_tokens=ka, maybe_placeholders=mp)
+        root = pf.parse(text)
+        tree = sl.stree_of(Lark(gtext, parser='earley', ambiguity='resolve', lexer=lexer, keep_all_tokens=ka,
+                                maybe_placeholders=mp).parse(text))
+    except (LarkError, sl.NotShaped):
+        return
+    summed = pf.parser.parser.forest_sum_visitor is not None
+    if summed:
+        return          # the grammars of this stream carry no priorities (C05 covers the summed walk)
+    nodes = fc.export_graph(root, pf)
+    if fc.is_cyclic(nodes) or fc.unfolded_size(nodes) > 400:
+        ctx.count('earley-forest-skipped')
+        return
+    rules = L([sl.rrec_lit(sl.rrec_of_rule(r)) for r in pf.rules])
+    term = '((%s, %s, %s, %s, %s) : earley_case)' % (rules, sl.B(mp), sl.B(summed), fc.coq_forest(nodes, annotated=False),
+                                                   sl.stree_lit(tree))
+    ctx.count('earley-forest-coq', key=(gtext, text, ka, mp, lexer), nontrivial=fc.count_derivs(nodes) >= 1 and sl.stree_size(tree) >= 2,
+              forest_derivations=min(fc.count_derivs(nodes), 3))
+
+    def h():
+        ctx.violation('correspondence:Shape/EarleyLeg.earley_resolve vs Lark(parser=earley, ambiguity=resolve)',
+                      {'no_longer_checks': 'ForestToParseTree(resolve) with the chain callbacks on the exported forest == lark tree '
+                                           '== shape of the selected derivation', 'grammar': gtext, 'text': text,
+                       'keep_all_tokens': ka, 'maybe_placeholders': mp, 'lexer': lexer, 'observed': sl.show(tree)}, False,
+                      'Coq forest-to-tree (resolve) on the forest lark built differs from the tree lark returned')
+    DEFER.add('(CaseEARLEY %s)' % term, ('earley', h))
+
+
 def build(text, parser, lexer, amb, ka, mp):
     from lark import Lark
     kw = dict(parser=parser, lexer=lexer, keep_all_tokens=ka, maybe_placeholders=mp)
@@ -366,6 +402,11 @@ def correspond(ctx):
                 comp_records.extend(sl.rrec_of_rule(r) for r in lalr.rules[:8])
             for text in texts:
                 tree = check_text(ctx, G, gtext, parsers, oracle, text, ka, mp, 'e2e')
+                if rng.random() < 0.45:
+                    try:
+                        earley_forest_case(ctx, gtext, text, ka, mp, rng.choice(['basic', 'dynamic']))
+                    except Exception as ex:
+                        ctx.violation('harness:earley-forest', {'grammar': gtext, 'text': text, 'error': repr(ex)[:300]}, False, repr(ex)[:300])
                 if tree is not None and lalr is not None:
                     try:
                         d = sl.lalr_derivation(lalr, text)
